@@ -12,6 +12,8 @@ from ..layout import LayoutExtractor
 def run(repo, rep):
     from ..pitfalls import memo_rule as _memo_rule
     _memo_rule(repo, rep, 'C02', 'C02.Z1')
+    from ..pitfalls import log_rule as _log_rule
+    _log_rule(repo, rep, 'C02', 'C02.Z2')
     lx = LayoutExtractor(repo)
     rep.trust('PS3.8 9.3.2-9.3.8, Annex D.1 and PS3.7 Annex D.3.3 as transcribed in pnd_static/oracles/ps3_8_layouts.py, '
               'including the attribute -> standard field map (confirmed by reading)')
